@@ -304,7 +304,7 @@ const copySkipTypes = "schema.Constraint,schema.Address,lang.Address,schema.Addr
 func generateCopyHarnesses() ([]byte, error) {
 	cfg := &packages.Config{
 		Mode: packages.NeedTypes | packages.NeedImports | packages.NeedDeps | packages.NeedName,
-		Dir:  "/verif/engine",
+		Dir:  moduleDir,
 		Env:  append(os.Environ(), "GOFLAGS=-mod=mod", "GOPROXY=off", "GOSUMDB=off", "GOTOOLCHAIN=local"),
 	}
 	pkgs, err := packages.Load(cfg, repoMod+"/schema", repoMod+"/lang")
